@@ -9,6 +9,13 @@ ITEM_ATTRS = ["allow(dead_code)", "cfg(all())", "doc = \" item level docs\"", "a
 FN_ATTRS = ["doc = \" Handler docs.\\n second line\"", "allow(unused_variables)", "must_use", "inline", "cfg(not(feature = \"verif_never\"))",
             "deprecated(note = \"old\")", "allow(clippy::needless_lifetimes)"]
 PARAM_ATTRS = ["allow(unused)", "serde(default)", "cfg(all())", "serde(rename = \"renamed\")"]
+BODY_ITEMS = [
+    "fn inner(#[allow(unused)] z: u32, #[cfg(all())] w: u8) -> u32 { 1 }",
+    "let _closure = |#[allow(unused_variables)] q: u8| 2u8;",
+    "#[allow(unused)] let _nested_attr_stmt = 3;",
+    "struct Local { #[allow(dead_code)] f: u8 }",
+    "let _c2 = |#[cfg(all())] a: u32, #[cfg(all())] b: u32| a + b;",
+]
 IMPL_EXTRAS = [
     "pub fn helper_plain(&self, x: u32) -> u32 { x + 1 }",
     "/// documented helper\n    pub(crate) fn helper_attr_param(&self, #[allow(unused)] x: u32, #[cfg(all())] y: u8) -> u32 { 7 }",
@@ -39,6 +46,11 @@ def decorate(rng, p):
             if h["kind"] == "reply":
                 continue
             h["foreign_attrs"] = rng.sample(FN_ATTRS, rng.choice([0, 0, 1, 2]))
+            if h["kind"] in ("exec", "query", "sudo"):
+                h["sv_attrs"] = rng.sample(["serde(alias = \"al1\")", "serde(alias = \"al2\")", "doc = \"forwarded\"", "cfg_attr(all(), allow(dead_code))",
+                                            "schemars(description = \"d\")"], rng.choice([0, 1, 2, 3, 4]))
+            if part["id"] == "c" and rng.random() < 0.4:
+                h["body_prefix"] = rng.sample(BODY_ITEMS, rng.choice([1, 2]))
             for a in h["args"]:
                 if rng.random() < 0.3:
                     a["attrs"] = rng.sample(PARAM_ATTRS, rng.choice([1, 2]))
